@@ -3,3 +3,4 @@ import PbProofs.FastLenPrev
 import PbProofs.Crop
 import PbProofs.Freq
 import PbProofs.Concat
+import PbProofs.Disp
